@@ -91,6 +91,25 @@ class OpaqueStar:
 
 
 _FRAME_SEQ = [0]
+_GENFN = {}
+
+
+def _is_generator_function(node):
+    """does the function body (not a nested def / lambda) contain yield / yield from?"""
+    k = id(node)
+    if k not in _GENFN:
+        found = False
+        stack = list(getattr(node, "body", []))
+        while stack and not found:
+            n = stack.pop()
+            if isinstance(n, (ast.Yield, ast.YieldFrom)):
+                found = True
+            elif isinstance(n, (ast.FunctionDef, ast.AsyncFunctionDef, ast.Lambda, ast.ClassDef)):
+                continue
+            else:
+                stack.extend(ast.iter_child_nodes(n))
+        _GENFN[k] = found
+    return _GENFN[k]
 
 
 class Frame:
@@ -576,6 +595,26 @@ class Interp:
         try:
             if isinstance(clo.node, ast.Lambda):
                 return self.eval(clo.node.body, fr)
+            if self.yield_hook is None and _is_generator_function(clo.node):
+                # a generator function called for its values (for x in gen(): ..., list(gen()), next(gen(), d)): evaluated EAGERLY into
+                # the list of what it yields - the same values in the same order for a generator that terminates and whose consumer
+                # does not interleave effects with it (the consumers in pandera iterate it to the end)
+                collected = ListObj()
+                collected.pre = False
+
+                def collect(I_, fr_, v, collected=collected):
+                    list.append(collected, v)
+                    return None
+
+                self.yield_hook = collect
+                try:
+                    try:
+                        self.exec_block(clo.node.body, fr)
+                    except _Return:
+                        pass
+                finally:
+                    self.yield_hook = None
+                return collected
             try:
                 self.exec_block(clo.node.body, fr)
             except _Return as r:
@@ -1826,6 +1865,16 @@ class Interp:
         if self.yield_hook is None:
             raise Unsupported("yield outside a one-yield context manager")
         return self.yield_hook(self, fr, v)
+
+    def e_YieldFrom(self, e, fr):
+        if self.yield_hook is None:
+            raise Unsupported("yield from outside a generator")
+        hook = self.yield_hook
+        src = self.eval(e.value, fr)
+        self.yield_hook = hook  # (evaluating the operand may have run - and finished - another eager generator)
+        for v in self.concrete_iter(src):
+            hook(self, fr, v)
+        return None
 
     # comprehensions
     def _comp(self, e, fr, emit):
